@@ -1957,7 +1957,30 @@ pub fn c16(tier: &str) -> Vec<Family> {
     // Many models initialised on the real multi-threaded executor; the hub's init wakes all
     // of them at once (one worker schedules far more tasks than its local queue holds).
     let mk_big = |busy: usize| -> Vec<Scenario> { [700usize, 1500].iter().map(|n| scn(format!("init_fan_out/{}units", n), &big_fan(*n, busy, true), vec![])).collect() };
-    vec![Family::new("init_fan_out_mt2", tags_h, mk_big(1)).uncontrolled(2, 2).hang_violation(), Family::new("init_fan_out_mt4", tags_h, mk_big(3)).uncontrolled(4, 2).hang_violation(), Family::new(
+    // The naming scenarios (errors raised by leaf, middle and top models, from handlers and from
+    // init) on the single-threaded executor with a step timeout configured (helper thread).
+    let with_timeout: Vec<Scenario> = sc
+        .iter()
+        .filter(|s| s.label.starts_with("names/") || s.label.contains("depth2") || s.label.contains("depth1/"))
+        .map(|s| {
+            let mut sp = (*s.spec).clone();
+            sp.timeout_ms = 20_000;
+            Scenario { spec: Arc::new(sp), cmds: s.cmds.clone(), label: format!("st_timeout/{}", s.label), prelude: None }
+        })
+        .collect();
+    // An init fault in a sub-model under the same configuration.
+    let mut with_timeout = with_timeout;
+    for (name, op) in [("panic", Op::Panic(PanicKind::Str)), ("norecipient", sendc(0, 1, 1))] {
+        let a = NodeSpec::new("top", 2).out(vec![to(3)]);
+        let m = NodeSpec::new("mid", 2).parent(0).out(vec![to(3)]);
+        let l = NodeSpec::new("leaf", 2).parent(1).init(vec![op]).out(vec![to(3)]);
+        let g = NodeSpec::new("gone", 1).placement(Placement::Dropped);
+        let mut sp = BenchSpec::new(vec![a, m, l, g]);
+        sp.timeout_ms = 20_000;
+        with_timeout.push(scn(format!("st_timeout/init_{}", name), &Arc::new(sp), vec![]));
+    }
+    vec![Family::new("names_st_with_timeout", tags_h, with_timeout).uncontrolled(1, 1),
+        Family::new("init_fan_out_mt2", tags_h, mk_big(1)).uncontrolled(2, 2).hang_violation(), Family::new("init_fan_out_mt4", tags_h, mk_big(3)).uncontrolled(4, 2).hang_violation(), Family::new(
         "hierarchies",
         &[
             "init_twice",
